@@ -30,7 +30,7 @@ MAYTHROW_INST = [(r'if \(!StepScript\(\*env\)\) return false;', r'{ bool verif_o
 
 def session_functions():
     s = block('debugger/interpreter.cpp', r'^bool StepScript\(InterpreterEnv& env\)', trailing=None)
-    s = rewrite(s, [(r'delete env\.tce;', 'verif_delete_tce(env.tce);', 1)])
+    s = rewrite(s, [(r'delete env\.tce;', 'verif_delete_tce(env.tce);', '+')])
     s, _ = r_exc(s, MAYTHROW_L1)
     if 'verif_thrown' not in s:
         raise SliceError("R-EXC: the call of the interpreter step inside StepScript(InterpreterEnv&) was not found")
@@ -39,7 +39,10 @@ def session_functions():
     c, ntry = r_exc(c, MAYTHROW_L2)
     if 'verif_thrown' not in c:
         raise SliceError("R-EXC: the call of StepScript inside ContinueScript was not found")
-    return s + r + c
+    # R-HELPERS: file-local helpers the three session functions call (none on the pinned tree; a refactoring that moves
+    # statements into a new static function keeps the unit complete and the contracts decide the moved code as well)
+    h = local_helpers('debugger/interpreter.cpp', s + r + c, exclude=('StepScript', 'RewindScript', 'ContinueScript', 'StepExtended', 'CastToBool'))
+    return h + s + r + c
 
 def instance_functions():
     t = '''
@@ -65,6 +68,14 @@ class Instance { public: InterpreterEnv* env; std::string exception_string; bool
     ev, ntry2 = r_exc(ev, MAYTHROW_INST)
     ev = rewrite(ev, [(r'ScriptErrorString\(\*env->serror\)\.c_str\(\)', '""', None)])
     t += 'bool verif_eval_loop(InterpreterEnv* env, CScript& script) {\n' + ev + '\n'
+    # second half of Instance::setup_environment (R-PARTIAL): from the code-separator initialisation to the end - creation of the
+    # session and hand-over of successor script, pretend-valid table, execution data and commitment checker; the first half
+    # (transaction signature checker, PrecomputedTransactionData) is outside the front end
+    su = between('instance.cpp', r'^    execdata\.m_codeseparator_pos = 0xFFFFFFFFUL;', r'^bool Instance::at_end\(\)', include_end=False).rstrip()
+    if not su.endswith('}') or 'return env->operational;' not in su:
+        raise SliceError("setup_environment tail does not end with `return env->operational; }`")
+    t += ('bool verif_setup_tail(verif_stack& stack, CScript& script, unsigned int flags, BaseSignatureChecker* checker, SigVersion sigver, ScriptError& error, CScript& successor_script,\n'
+          '                      verif_bytes_map& pretend_valid_map, verif_bytes_set& pretend_valid_pubkeys, ScriptExecutionData& execdata, TaprootCommitmentEnv* tce, InterpreterEnv*& env) {\n' + su + '\n')
     return t
 
 def build_l2():
